@@ -689,7 +689,35 @@ def children_before_call(ctx: Ctx, rs: RuleSet, rule='DOM.children-before-call')
              ctx.loc(f, bad[0] if bad else f.node))
 
 
+def signature_tables(ctx: Ctx, rs: RuleSet, rule='IDMEMO.signature-tables'):
+  """A signature looked up for one callable is never served for another:
+
+  module-level tables in signatures.py are keyed by the callable itself (weak
+  dictionaries), never by a bare id() whose object may die.
+  """
+  from fdlstatic import idmemo
+  rs.declare(rule, 'signature / type-hint tables are not keyed by the id of an '
+             'object they do not hold', 1)
+  sites = idmemo.scan_module(ctx, 'fiddle._src.signatures')
+  bad = [s_ for s_ in sites if not s_.pinned]
+  for s_ in bad:
+    rs.fail(rule, s_.key,
+            f'`{s_.table}` is keyed by id({unparse(s_.x)}) without holding '
+            'the object: once it is collected CPython reuses the id, and the '
+            'next callable allocated there is bound with the dead one\'s '
+            'signature (arguments silently bound to other parameters)',
+            ctx.loc(s_.scope, s_.node))
+  if not bad:
+    rs.ok(rule, 'fiddle._src.signatures',
+          f'{len(sites)} id-keyed store(s); caches are keyed by the callable '
+          'object', '')
+
+
 def run(ctx: Ctx, rs: RuleSet, tier: str):
+  signature_tables(ctx, rs)
+  from fdlstatic.rules import c19
+  c19.cache_premise(ctx, rs, 'CACHE.signature',
+                    ['fiddle._src.signatures._signature_cache'])
   L, helpers = gap_rule(ctx, rs)
   kd_rules(ctx, rs, L, helpers)
   pk_rule(ctx, rs)
